@@ -113,8 +113,8 @@ func runConcurrent(c *fw.Ctx, idx int, r *fw.Rand) {
 			ss := env.StartSMTP()
 			defer ss.Close()
 			<-start
-			if _, ok := ss.Greeting(); !ok {
-				results[si].err = "no greeting"
+			if _, err := ss.Greet(); err != nil {
+				results[si].err = err.Error()
 				return
 			}
 			if _, err := ss.Cmd("EHLO cc.test"); err != nil {
@@ -122,8 +122,11 @@ func runConcurrent(c *fw.Ctx, idx int, r *fw.Rand) {
 				return
 			}
 			for _, x := range plans[si] {
-				if rep, err := ss.Cmd("MAIL FROM:<s@sender.test>"); err != nil || rep.Code != 250 {
-					results[si].err = fmt.Sprintf("MAIL: %v %v", rep, err)
+				if rep, err := ss.Cmd("MAIL FROM:<s@sender.test>"); err != nil {
+					results[si].err = err.Error()
+					return
+				} else if rep.Code != 250 {
+					results[si].err = fmt.Sprintf("MAIL refused: %v", rep)
 					return
 				}
 				var ok []string
@@ -137,8 +140,11 @@ func runConcurrent(c *fw.Ctx, idx int, r *fw.Rand) {
 						ok = append(ok, a)
 					}
 				}
-				if rep, err := ss.Cmd("DATA"); err != nil || rep.Code != 354 {
-					results[si].err = fmt.Sprintf("DATA: %v %v", rep, err)
+				if rep, err := ss.Cmd("DATA"); err != nil {
+					results[si].err = err.Error()
+					return
+				} else if rep.Code != 354 {
+					results[si].err = fmt.Sprintf("DATA refused: %v", rep)
 					return
 				}
 				body := sut.DotStuff([]byte("Subject: " + x.subject + "\r\n\r\nbody\r\n"))
@@ -166,6 +172,10 @@ func runConcurrent(c *fw.Ctx, idx int, r *fw.Rand) {
 	want := map[string]map[string]int{} // mailbox -> subject -> copies owed (distinct recipient strings)
 	total := 0
 	for si, res := range results {
+		if strings.HasPrefix(res.err, "watchdog:") {
+			c.Hang("smtp-session-idle", res.err, "")
+			return
+		}
 		if res.err != "" {
 			c.Violation("C01:concurrent-session-failed", fmt.Sprintf("session %d: %s", si, res.err), nil)
 			return
@@ -261,15 +271,23 @@ func runSession(c *fw.Ctx, idx int, r *fw.Rand) {
 		}
 	}()
 	fail := func(key, what string) {
+		if strings.HasPrefix(what, "watchdog:") {
+			// A fired watchdog is never a verdict by itself: bounded-progress rule.
+			c.Hang("smtp-session-idle", what, "")
+			return
+		}
 		c.Violation(key, what, map[string]any{"config": combo, "accept_default": conf.SMTP.DefaultAccept,
 			"max_rcpt": conf.SMTP.MaxRecipients, "trace": ss.Trace})
 	}
-	if _, ok := ss.Greeting(); !ok {
-		fail("C01:no-greeting", "no single 220 greeting")
+	if _, err := ss.Greet(); err != nil {
+		fail("C01:no-greeting", err.Error())
 		return
 	}
-	if rep, err := ss.Cmd("EHLO client.test"); err != nil || rep.Code != 250 {
-		fail("C01:ehlo", fmt.Sprintf("EHLO not acknowledged: %v %v", rep, err))
+	if rep, err := ss.Cmd("EHLO client.test"); err != nil {
+		fail("C01:reply-shape", err.Error())
+		return
+	} else if rep.Code != 250 {
+		fail("C01:ehlo", fmt.Sprintf("EHLO not acknowledged: %v", rep))
 		return
 	}
 	model := map[string][]sut.MsgSnap{} // the store as the harness last saw it
